@@ -43,6 +43,7 @@ mod orset;
 mod stream_glue;
 mod active_expiry;
 mod wal_modes;
+mod cmd_parse_opts;
 use std::panic;
 
 pub struct Found {
@@ -123,6 +124,7 @@ fn main() {
         "stream_glue" => stream_glue::search(&pid, &oid, seed),
         "active_expiry" => active_expiry::search(&pid, &oid, seed),
         "wal_modes" => wal_modes::search(&pid, &oid, seed),
+        "cmd_parse_opts" => cmd_parse_opts::search(&pid, &oid, seed),
         _ => None,
     };
     match res {
